@@ -1008,5 +1008,43 @@ func c11Forms(c *core.Ctx, tabs *Tables) {
 				"SAM record %s %s %s on reference %s (gene 1..9): the pair form %s / %s gives %v, the toMultiAlign row %s gives %v", rec.Cigar, rec.Seq, "POS=1", annoRef, refRow, qryRow, a.all, row, b.all)
 		}
 	}
+	// the mirror image: a gene on the reverse strand, complement(13..21) (ATG AAA CCC read from 21 down to 13), and a
+	// query whose alignment BEGINS inside its last codon: base 13, the codon's third base, is not covered
+	rv2, err := newEval(c).CallFunc(rg, mkGFF(c, []*eval.StructVal{mkGFFFeature(c, "CDS", 13, 21, "-", 0, map[string]string{"ID": "c2", "Name": "g2"})}), eval.S(annoRef))
+	t2, ok2 := rv2.(eval.Tuple)
+	if err != nil || !ok2 || len(t2) != 3 {
+		c.Und("R12/forms-agree/reverse-gene", rg.Pos(), "cannot build the regions: %v", err)
+		return
+	}
+	regs2 := []eval.Value{t2[0], t2[1]}
+	for _, x := range "ACGT" {
+		for _, y := range "ACGT" {
+			pair := string(x) + string(y) // query bases at 14 and 15
+			if pair == annoRef[13:15] {
+				continue
+			}
+			key := fmt.Sprintf("R12/forms-agree/query-begins-at-base-14-inside-the-last-codon-of-a-reverse-gene/bases-14-15-%s", pair)
+			rec := samRec{Name: "q", Pos: 13, Cigar: "11M", Seq: pair + annoRef[15:]}
+			refRow, qryRow, _, _, _, err := evalPairAlign(c, []samRec{rec}, annoRef, false)
+			if err != nil {
+				c.Und(key, funcPos(c, "pkg/sam", "blockToPairwiseAlignment"), "cannot build the pair: %v", err)
+				continue
+			}
+			row, _, _, err := evalMultiAlignRow(c, []samRec{rec}, len(annoRef), false, false, 1, len(annoRef))
+			if err != nil {
+				c.Und(key, funcPos(c, "pkg/sam", "blockToFastaRecord"), "cannot build the row: %v", err)
+				continue
+			}
+			a, err1 := evalVariantsPairWith(c, tabs, refRow, qryRow, nil, regs2)
+			b, err2 := evalVariantsPairWith(c, tabs, annoRef, row, nil, regs2)
+			if err1 != nil || err2 != nil {
+				c.Und(key, funcPos(c, "pkg/variants", "GetVariantsPair"), "cannot evaluate: %v %v", err1, err2)
+				continue
+			}
+			n++
+			c.Ob(key, strings.Join(a.all, "|") == strings.Join(b.all, "|"), funcPos(c, "pkg/variants", "getAAsPair"),
+				"SAM record %s %s POS=14 on reference %s (gene complement(13..21)): the pair form %s / %s gives %v, the toMultiAlign row %s gives %v", rec.Cigar, rec.Seq, annoRef, refRow, qryRow, a.all, row, b.all)
+		}
+	}
 	c.Count("form_pairs_evaluated", n)
 }
